@@ -629,6 +629,9 @@ pub fn simulate(base: &Path, cfg: txtpp::Config, sched: &Sched, opts: &SimOpts) 
         while !quiescent(&st) {
             let (g, to) = sim.cv.wait_timeout(st, Duration::from_millis(250)).unwrap();
             st = g;
+            if quiescent(&st) {
+                break;
+            }
             if to.timed_out() {
                 ticks += 1;
             }
